@@ -1,10 +1,33 @@
 // ---- prelude/access.rs : indexed access on lists (bdd.rs:779-952): safety only
-// R5 (contract-only): uses `.iter().enumerate()` and f64 -> i64 casts
-#[verifier::external_body]
-fn list_atomic_member_type_at_inner(prefix_items: &[Rc<SemType>], items: &Rc<SemType>, key: ListNumberKey) -> (r: Result<Rc<SemType>>)
-    ensures sts_ok(prefix_items@) && st_ok(*items) ==> (r is Ok ==> st_ok(r->Ok_0))
-{ unimplemented!() }
-
+// ---- value-level reading of the walk over a list diagram (C07): a value belongs to the member type of the
+// diagram at the keys iff it belongs to `accum` and some root-to-True path has it in the member type of every atom
+// the path takes positively (negative atoms are ignored: the member type is an upper bound by design)
+pub open spec fn not_marker(v: Val) -> bool { tag_of(v) != SubTypeTag::OptionalProp }
+spec fn atom_member(defs: Defs, a: Atom, key: ListNumberKey, v: Val) -> bool {
+    member_at(lt_of(defs, a).prefix_items@, *lt_of(defs, a).items, key, v) && not_marker(v)
+}
+spec fn proj_mem(defs: Defs, b: Bdd, key: ListNumberKey, v: Val) -> bool
+    decreases b
+{
+    match b {
+        Bdd::True => true,
+        Bdd::False => false,
+        Bdd::Node { atom, left, middle, right } =>
+            (atom_member(defs, atom, key, v) && proj_mem(defs, *left, key, v)) || proj_mem(defs, *middle, key, v) || proj_mem(defs, *right, key, v),
+    }
+}
+pub open spec fn lt_wf(lt: ListAtomic) -> bool { items_wf(lt.prefix_items@, *lt.items) && items_in_val(lt.prefix_items@, *lt.items) }
+// the item types of every atom of the diagram are well-formed and format-free
+pub open spec fn bdd_latoms_wf(defs: Defs, b: Bdd) -> bool
+    decreases b
+{
+    match b {
+        Bdd::True => true,
+        Bdd::False => true,
+        Bdd::Node { atom, left, middle, right } =>
+            lt_wf(lt_of(defs, atom)) && bdd_latoms_wf(defs, *left) && bdd_latoms_wf(defs, *middle) && bdd_latoms_wf(defs, *right),
+    }
+}
 // every atom of the diagram is a list or Set atom defined in the context's tables
 pub open spec fn bdd_latoms_ok(defs: Defs, b: Bdd) -> bool
     decreases b
@@ -57,7 +80,50 @@ pub open spec fn bdd_matoms_ok(defs: Defs, b: Bdd) -> bool
             matom_ok(defs, atom) && bdd_matoms_ok(defs, *left) && bdd_matoms_ok(defs, *middle) && bdd_matoms_ok(defs, *right),
     }
 }
-// R5 (contract-only): iterates a BTreeMap and uses a let-chain with else-less `if` over iterator adapters
+// T2: the key type is the real definition (outside verus!); its derived Clone returns an equal value
+#[verifier::external_type_specification]
+struct ExMappingStrKey(MappingStrKey);
+pub assume_specification[ <MappingStrKey as Clone>::clone ](x: &MappingStrKey) -> (r: MappingStrKey)
+    ensures r == *x;
+// R5 (contract-only, ASSUMED; bounded stand-in: families mapidx / idx): the component types of an object atom that
+// a string key set selects. It iterates a BTreeMap and uses a let-chain with else-less `if` over iterator adapters.
+// Modelled as an uninterpreted function of the atom and the key set; the types it returns are component types of
+// the atom, hence as well-formed as the atom.
+spec fn applicable(atomic: MappingAtomicType, key: MappingStrKey) -> Seq<Rc<SemType>>;
+pub uninterp spec fn matom_wf(atomic: MappingAtomicType) -> bool;
 #[verifier::external_body]
-fn mapping_member_type_inner(atomic: Rc<MappingAtomicType>, key: MappingStrKey) -> (r: Result<Rc<SemType>>)
+fn mapping_atomic_applicable_member_types_inner(atomic: Rc<MappingAtomicType>, key: MappingStrKey) -> (r: Result<Vec<Rc<SemType>>>)
+    ensures r is Ok ==> r->Ok_0@ == applicable(*atomic, key),
+            matom_wf(*atomic) ==> r is Ok && forall|i: int| 0 <= i < r->Ok_0@.len() ==> swf(#[trigger] r->Ok_0@[i]) && sin_val(r->Ok_0@[i]),
 { unimplemented!() }
+// value-level reading of the walk over an object diagram, as for lists
+spec fn matom_member(defs: Defs, a: Atom, key: MappingStrKey, v: Val) -> bool {
+    any_upto(applicable(mt_of(defs, a), key), applicable(mt_of(defs, a), key).len() as int, v)
+}
+pub open spec fn mt_of(defs: Defs, a: Atom) -> MappingAtomicType {
+    match a {
+        Atom::Mapping(i) => mapping_tbl(defs, i),
+        Atom::Map(i) => map_tbl(defs, i),
+        _ => arbitrary(),
+    }
+}
+spec fn mproj_mem(defs: Defs, b: Bdd, key: MappingStrKey, v: Val) -> bool
+    decreases b
+{
+    match b {
+        Bdd::True => true,
+        Bdd::False => false,
+        Bdd::Node { atom, left, middle, right } =>
+            (matom_member(defs, atom, key, v) && mproj_mem(defs, *left, key, v)) || mproj_mem(defs, *middle, key, v) || mproj_mem(defs, *right, key, v),
+    }
+}
+pub open spec fn bdd_matoms_wf(defs: Defs, b: Bdd) -> bool
+    decreases b
+{
+    match b {
+        Bdd::True => true,
+        Bdd::False => true,
+        Bdd::Node { atom, left, middle, right } =>
+            matom_wf(mt_of(defs, atom)) && bdd_matoms_wf(defs, *left) && bdd_matoms_wf(defs, *middle) && bdd_matoms_wf(defs, *right),
+    }
+}
